@@ -341,41 +341,49 @@ impl<'tx> TxInner<'tx> {
             #[cfg(feature = "verif-hooks")]
             crate::verif::point("commit.before_meta", self.meta.tx_id);
             // write meta page to file
-            {
-                let mut buf = vec![0; self.db.inner.pagesize as usize];
+            let written = (|| -> Result<()> {
+                {
+                    let mut buf = vec![0; self.db.inner.pagesize as usize];
 
-                #[allow(clippy::cast_ptr_alignment)]
-                let page = unsafe { &mut *(&mut buf[0] as *mut u8 as *mut Page) };
-                let meta_page_id = u64::from(self.meta.meta_page == 0);
-                page.id = meta_page_id;
-                page.page_type = Page::TYPE_META;
-                let m = page.meta_mut();
-                m.meta_page = meta_page_id as u32;
-                m.magic = self.meta.magic;
-                m.version = self.meta.version;
-                m.pagesize = self.meta.pagesize;
-                m.root = self.meta.root;
-                m.num_pages = self.meta.num_pages;
-                m.freelist_page = self.meta.freelist_page;
-                m.tx_id = self.meta.tx_id;
-                m.hash = m.hash_self();
+                    #[allow(clippy::cast_ptr_alignment)]
+                    let page = unsafe { &mut *(&mut buf[0] as *mut u8 as *mut Page) };
+                    let meta_page_id = u64::from(self.meta.meta_page == 0);
+                    page.id = meta_page_id;
+                    page.page_type = Page::TYPE_META;
+                    let m = page.meta_mut();
+                    m.meta_page = meta_page_id as u32;
+                    m.magic = self.meta.magic;
+                    m.version = self.meta.version;
+                    m.pagesize = self.meta.pagesize;
+                    m.root = self.meta.root;
+                    m.num_pages = self.meta.num_pages;
+                    m.freelist_page = self.meta.freelist_page;
+                    m.tx_id = self.meta.tx_id;
+                    m.hash = m.hash_self();
 
-                file.seek(SeekFrom::Start(self.db.inner.pagesize * meta_page_id))?;
-                file.write_all(buf.as_slice())?;
-            }
+                    file.seek(SeekFrom::Start(self.db.inner.pagesize * meta_page_id))?;
+                    file.write_all(buf.as_slice())?;
+                }
 
-            #[cfg(feature = "verif-hooks")]
-            crate::verif::point("commit.before_sync", self.meta.tx_id);
-            file.flush()?;
-            file.sync_all()?;
+                #[cfg(feature = "verif-hooks")]
+                crate::verif::point("commit.before_sync", self.meta.tx_id);
+                file.flush()?;
+                file.sync_all()?;
+                Ok(())
+            })();
 
             #[cfg(feature = "verif-hooks")]
             crate::verif::point("commit.before_publish", self.meta.tx_id);
-            let mut lock = self.db.inner.freelist.lock()?;
-            *lock = freelist.inner.clone();
+            // Later transactions use whichever meta page is visible in the file now. If that is
+            // ours, even though writing or syncing it reported an error, they must use our
+            // freelist too: otherwise they would hand out pages this transaction has just filled.
+            if written.is_ok() || self.db.inner.meta()?.tx_id == self.meta.tx_id {
+                let mut lock = self.db.inner.freelist.lock()?;
+                *lock = freelist.inner.clone();
+            }
             #[cfg(feature = "verif-hooks")]
             crate::verif::point("commit.after_publish", self.meta.tx_id);
-            Ok(())
+            written
         } else {
             unreachable!()
         }
